@@ -101,3 +101,17 @@ Example rescue_cutoff_witness :
   rescue_score_cutoff (fun x => x) [((5#1), (0#1)); ((3#1), (1#10)); ((2#1), (1#2))] (1#5) = Ok (3#1) /\
   rescue_score_cutoff (fun x => x) [((5#1), (1#1)); ((3#1), (1#1))] (1#100) = Ok (3#1).
 Proof. split; vm_compute; reflexivity. Qed.
+
+(* ---- the rescue regrouping sees exactly the peptides STRICTLY better than the rescue cutoff, in their original order ---- *)
+Lemma filter_by_cutoff_spec (l : pil) (cut : Q) en :
+  In en (filter_by_cutoff l cut) <-> In en l /\ (fst (snd en) < cut)%Q.
+Proof.
+  unfold filter_by_cutoff. rewrite filter_In. split; intros [H1 H2]; (split; [exact H1|]).
+  - apply negb_true_iff in H2. apply Qnot_le_lt. intros Hle. apply Qle_bool_iff in Hle. congruence.
+  - apply negb_true_iff. destruct (Qle_bool cut (fst (snd en))) eqn:E; [|reflexivity].
+    apply Qle_bool_iff in E. exfalso. apply (Qlt_not_le _ _ H2). exact E.
+Qed.
+
+Lemma filter_by_cutoff_keeps_order (l : pil) (cut : Q) :
+  exists keep : str * (Q * list str) -> bool, filter_by_cutoff l cut = filter keep l.
+Proof. eexists. reflexivity. Qed.
